@@ -143,4 +143,6 @@ def run(index, tier="quick", seed=0) -> Result:
             res.bad("DEG", k, where, what)
     if n < 5:
         raise AnalysisError("fewer than 5 (class, implementation) pairs")
+    from ..parallel import report as _copy1
+    _copy1(res, index, lambda f: f['top'] == 'compute_form_factor_amplitude')
     return res
